@@ -122,13 +122,61 @@ func (f atom) relFor(a atom) (relSet, bool) {
 		}
 		return 0, false
 	}
-	if f.lre.MatchString(a.L) && f.rre.MatchString(a.R) {
+	if matchOperand(f.lre, a.L) && matchOperand(f.rre, a.R) {
 		return f.Rel, true
 	}
-	if f.lre.MatchString(a.R) && f.rre.MatchString(a.L) {
+	if matchOperand(f.lre, a.R) && matchOperand(f.rre, a.L) {
 		return f.Rel.mirror(), true
 	}
 	return 0, false
+}
+
+// matchOperand: the pattern describes the operand. An operand that is a merge of
+// several values (`phi(a|b)` as a whole) is described only if every alternative is:
+// a fact about one of the merged values says nothing about the merge.
+func matchOperand(re *regexp.Regexp, s string) bool {
+	if alts := topLevelPhi(s); alts != nil {
+		for _, a := range alts {
+			if !matchOperand(re, a) {
+				return false
+			}
+		}
+		return true
+	}
+	return re.MatchString(s)
+}
+
+// topLevelPhi: the alternatives of s if s is `phi(a|b|…)` and nothing else.
+func topLevelPhi(s string) []string {
+	if !strings.HasPrefix(s, "phi(") || !strings.HasSuffix(s, ")") {
+		return nil
+	}
+	depth := 0
+	var alts []string
+	last := 4
+	for j := 3; j < len(s); j++ {
+		switch s[j] {
+		case '(', '[':
+			depth++
+		case ')', ']':
+			depth--
+			if depth == 0 {
+				if j != len(s)-1 {
+					return nil // the phi is only a prefix (a callee or a receiver)
+				}
+				alts = append(alts, s[last:j])
+			}
+		case '|':
+			if depth == 1 {
+				alts = append(alts, s[last:j])
+				last = j + 1
+			}
+		}
+	}
+	if len(alts) < 2 {
+		return nil
+	}
+	return alts
 }
 
 // isTrue / isFalse facts about a boolean expression.
